@@ -64,7 +64,10 @@ StartDuty(s) ==
        ELSE /\ duty' = s /\ preDone' = FALSE /\ dval' = "none" /\ finished' = FALSE     \* baseSetupForNewDuty: new State
             /\ IF HasPre
                THEN /\ runH' = 0 /\ UNCHANGED <<ctrlH, inst>>
-                    /\ sigLog' = IF Len(sigLog) < MaxSig THEN Append(sigLog, PreSig(s)) ELSE sigLog
+                    \* the proof of a slot is logged once: starting the same slot again (possible while the controller
+                    \* height is below it) signs the same proof again, which C03 does not restrict
+                    /\ sigLog' = IF Len(sigLog) < MaxSig /\ \A i \in 1..Len(sigLog) : sigLog[i] # PreSig(s)
+                                 THEN Append(sigLog, PreSig(s)) ELSE sigLog
                ELSE LET d == Decide(s, inst, ctrlH) IN
                     /\ inst' = d[1] /\ ctrlH' = d[2] /\ runH' = d[3] /\ UNCHANGED sigLog
             /\ act' = [name |-> "StartDuty", s |-> s, ok |-> TRUE]
